@@ -300,14 +300,17 @@ def _mentions_self(node, attr):
 
 
 def run(tree, rep, tier):
+    from .. import sharedstate
+    sharedstate.check(tree, rep, "C18.R0")
     prog = Program(tree)
     r2(prog, rep)
     r3(tree, prog, rep)
     r4c(tree, rep)
     observers_terminated(tree, rep)
     r5_observers(tree, rep)
-    from .C03 import observer_handoff_atomic, eventual_turn_isolates_calls
+    from .C03 import observer_handoff_atomic, eventual_turn_isolates_calls, observers_fire_eventually
     observer_handoff_atomic(tree, rep, "C18.R6")
+    observers_fire_eventually(tree, rep, "C18.R6")
     eventual_turn_isolates_calls(tree, rep, "C18.R6")
     r1(tree, rep, tier)
 
